@@ -15,6 +15,8 @@ namespace Dippy
 inductive Atom where
   /-- the command proper: the words of one `command` node and the length of its assignment prefix -/
   | proper (words : List String) (baseIdx : Nat) (cwd : String) (remote : Bool)
+  /-- the same command as bash reads it: the words after quote removal (analysed as well; the stricter verdict counts) -/
+  | unquotedCmd (words unquoted : List String) (baseIdx : Nat) (cwd : String) (remote : Bool)
   /-- the injection-risk prompt of a pure `$(…)` argument (part of that substitution) -/
   | inject (ctx : CmdCtx) (wd : Word) (pos : Nat)
   /-- one file redirection (local analysis only) -/
@@ -34,8 +36,19 @@ def properDecisions (w : World) (rec : Rec) (h : HelpTables) (words : List Strin
     else if baseIdx ≥ words.length then [⟨.allow, "env assignment"⟩]
     else [simpleCmd w rec h (words.length + 1) (words.drop baseIdx) cwd remote]
 
+/-- the second pass of step 3: reached exactly when the first one reaches `_analyze_simple_command` -/
+def unquotedDecisions (w : World) (rec : Rec) (h : HelpTables) (words unquoted : List String) (baseIdx : Nat)
+    (cwd : String) (remote : Bool) : List Decision :=
+  if words.isEmpty then []
+  else
+    let base := words.getD baseIdx ""
+    if base == "[" || base == "test" then []
+    else if baseIdx ≥ words.length then []
+    else [simpleCmd w rec h (unquoted.length + 1) (unquoted.drop baseIdx) cwd remote]
+
 def atomDecisions (w : World) (rec : Rec) (h : HelpTables) : Atom → List Decision
   | .proper words baseIdx cwd remote => properDecisions w rec h words baseIdx cwd remote
+  | .unquotedCmd words unquoted baseIdx cwd remote => unquotedDecisions w rec h words unquoted baseIdx cwd remote
   | .inject ctx wd pos => injectionRisk w ctx wd pos
   | .redir op target cwd => redirectDecision w op target cwd
   | .text ps s cwd remote => scanArg rec ps s cwd remote
@@ -73,7 +86,8 @@ mutual
 def flat : Node → String → Bool → List Atom
   | .command ws rs, cwd, remote =>
     let ctx := mkCmdCtxS w.hasHandler w.simpleSafe ws
-    flatCmdWords ctx ws 0 cwd remote ++ flatRedirects rs cwd remote ++ [.proper ctx.words ctx.baseIdx cwd remote]
+    flatCmdWords ctx ws 0 cwd remote ++ flatRedirects rs cwd remote
+      ++ [.proper ctx.words ctx.baseIdx cwd remote, .unquotedCmd ctx.words ctx.unquoted ctx.baseIdx cwd remote]
   | .pipeline cmds, cwd, remote => flatNodes cmds cwd remote
   | .list parts, cwd, remote => flatListParts parts (effectiveCwdS w.resolveCd parts cwd remote) remote
   | .ifN c t e rs, cwd, remote =>
